@@ -116,6 +116,7 @@ type c28Seq struct {
 	name     string
 	distinct bool
 	hash     [][]byte
+	fork     [][]byte // fork[i] != hash[i]: the hashes of an alternative branch
 	ref      [][]byte // ref[n] = reference root of the first n hashes
 	tree     *c28Log  // nodes written by n plain Adds ...
 	treeCnt  []int    // ... visible count after n adds
@@ -373,23 +374,29 @@ func (c *c28Ctx) proofCase(s *c28Seq, n int, allKeys, sequential bool) {
 // where names the situation for the signature ("after-rewind", ...).
 // It returns false if something differed.
 func (c *c28Ctx) entryPoints(cs C28Case, s *c28Seq, where, ctx string, acc hexary.Accumulator, tree, accb *c28Bucket, want int, finalizeFirst, reopenIsObservation bool) bool {
+	return c.entryPointsRef(cs, where, ctx, acc, tree, accb, want, s.ref[want], func(i int) []byte { return s.hash[i] }, []int{0, want - 1}, finalizeFirst, reopenIsObservation)
+}
+
+// entryPointsRef: as entryPoints, for an arbitrary expected sequence given by
+// its reference root, its leaves and the keys whose proofs are to be checked.
+func (c *c28Ctx) entryPointsRef(cs C28Case, where, ctx string, acc hexary.Accumulator, tree, accb *c28Bucket, want int, root []byte, leaf func(int) []byte, keys []int, finalizeFirst, reopenIsObservation bool) bool {
 	ok := true
 	bad := func(sig, detail string) {
 		ok = false
-		c.r.Violation(sig+":"+where, fmt.Sprintf("%s: %s; the first %d hashes have reference root %x", ctx, detail, want, s.ref[want]), cs)
+		c.r.Violation(sig+":"+where, fmt.Sprintf("%s: %s; the first %d hashes have reference root %x", ctx, detail, want, root), cs)
 	}
 	if acc.Len() != int64(want) {
 		bad("len-differs-from-prefix", fmt.Sprintf("Len()=%d", acc.Len()))
 	}
 	var fh *hexary.MerkleHeader
 	get := func(round string) {
-		if h := acc.GetMerkleHeader(); !c28HdrEq(h, s.ref[want], want) {
+		if h := acc.GetMerkleHeader(); !c28HdrEq(h, root, want) {
 			bad("getmerkleheader-differs-from-prefix"+round, fmt.Sprintf("GetMerkleHeader() = %v", h))
 		}
 	}
 	fin := func(round string) {
 		h, err := acc.Finalize()
-		if err != nil || !c28HdrEq(h, s.ref[want], want) {
+		if err != nil || !c28HdrEq(h, root, want) {
 			bad("finalize-differs-from-prefix"+round, fmt.Sprintf("Finalize() = %v, %v", h, err))
 		} else {
 			fh = h
@@ -410,11 +417,14 @@ func (c *c28Ctx) entryPoints(cs C28Case, s *c28Seq, where, ctx string, acc hexar
 		if err != nil {
 			bad("merkletree-open-fails", err.Error())
 		} else {
-			for _, key := range []int{0, want - 1} {
+			for _, key := range keys {
+				if key < 0 || key >= want {
+					continue
+				}
 				pf, err := prover.Prove(int64(key), 0)
 				if err != nil {
 					bad("prove-fails", fmt.Sprintf("Prove(%d,0) against the finalized header: %v", key, err))
-				} else if err := c28Fresh(fh).Add(int64(key), s.hash[key], pf); err != nil {
+				} else if err := c28Fresh(fh).Add(int64(key), leaf(key), pf); err != nil {
 					bad("valid-proof-rejected", fmt.Sprintf("key %d: %v", key, err))
 				}
 			}
@@ -427,7 +437,7 @@ func (c *c28Ctx) entryPoints(cs C28Case, s *c28Seq, where, ctx string, acc hexar
 			rh = re.GetMerkleHeader()
 			rf, err = re.Finalize()
 		}
-		if err != nil || !c28HdrEq(rh, s.ref[want], want) || !c28HdrEq(rf, s.ref[want], want) {
+		if err != nil || !c28HdrEq(rh, root, want) || !c28HdrEq(rf, root, want) {
 			if reopenIsObservation {
 				c.add("obs_rewind_not_persisted", 1)
 				c.obsOnce.Do(func() {
@@ -537,6 +547,104 @@ func (c *c28Ctx) rewindCase(s *c28Seq, n, l int) {
 	c.add("rewinds_"+rel, 1)
 }
 
+// forkCase: the rebase pattern. On a copy of the N-state the header-returning
+// entry points are asked at length N (so that anything an implementation may
+// remember about "length N" is in place), the accumulator is rewound to l<N
+// and DIFFERENT hashes g_l, g_l+1, ... are added. Everything is compared with
+// the reference of the forked sequence h_0..h_l-1, g_l..; the new leaves must
+// be provable.
+//
+//	variant 0: no query between the rewind and length N; all entry points at
+//	           N (GetMerkleHeader first), one more add, all entry points at N+1
+//	variant 1: as 0 but Finalize first at N; then add up to N+2 without any
+//	           query, rewind to N again, all entry points (GetMerkleHeader first)
+//	variant 2: a GetMerkleHeader and a Finalize query at an intermediate length,
+//	           then on to N, all entry points (order by parity)
+func (c *c28Ctx) forkCase(s *c28Seq, n, l, variant int) {
+	cs := C28Case{Seq: s.name, Kind: "fork", N: n, L: l, Key: variant}
+	rel := c28Pow16Rel(l)
+	where := fmt.Sprintf("after-rewind-and-fork:v%d:%s", variant, rel)
+	leaf := func(i int) []byte {
+		if i < l {
+			return s.hash[i]
+		}
+		return s.fork[i]
+	}
+	ref := func(m int) []byte {
+		seq := make([][]byte, m)
+		for i := range seq {
+			seq[i] = leaf(i)
+		}
+		return c28RefRoot(seq)
+	}
+	if p := ev.Catch(func() {
+		acc, tree, accb := c.open(cs, s, n)
+		if acc == nil {
+			return
+		}
+		// queries at the old tip
+		if !c.entryPoints(cs, s, "before-fork", fmt.Sprintf("N=%d", n), acc, nil, nil, n, variant == 1, false) {
+			return
+		}
+		if err := acc.SetLen(int64(l)); err != nil {
+			c.r.Violation("setlen-fails:"+rel, fmt.Sprintf("N=%d SetLen(%d): %v", n, l, err), cs)
+			return
+		}
+		grow := func(to int) bool {
+			for i := int(acc.Len()); i < to; i++ {
+				if err := acc.Add(leaf(i)); err != nil {
+					c.r.Violation("add-after-rewind-fails:fork:"+rel, fmt.Sprintf("N=%d SetLen(%d) fork add #%d: %v", n, l, i, err), cs)
+					return false
+				}
+			}
+			return true
+		}
+		at := func(m int, finalizeFirst bool, what string) bool {
+			return c.entryPointsRef(cs, where, fmt.Sprintf("N=%d, headers asked, SetLen(%d), %d different hashes added%s", n, l, m-l, what), acc, tree, accb, m, ref(m), leaf, []int{0, l - 1, l, m - 1}, finalizeFirst, false)
+		}
+		switch variant {
+		case 0:
+			if !grow(n) || !at(n, false, "") {
+				return
+			}
+			if grow(n + 1) {
+				at(n+1, true, " (+1)")
+			}
+		case 1:
+			if !grow(n) || !at(n, true, "") {
+				return
+			}
+			if !grow(n + 2) {
+				return
+			}
+			if err := acc.SetLen(int64(n)); err != nil {
+				c.r.Violation("setlen-fails:fork-second:"+c28Pow16Rel(n), fmt.Sprintf("N=%d SetLen(%d) fork to %d SetLen(%d): %v", n, l, n+2, n, err), cs)
+				return
+			}
+			at(n, false, fmt.Sprintf(", grown to %d and rewound to %d", n+2, n))
+		case 2:
+			mid := (l + n + 1) / 2
+			if !grow(mid) {
+				return
+			}
+			if h := acc.GetMerkleHeader(); !c28HdrEq(h, ref(mid), mid) {
+				c.r.Violation("getmerkleheader-differs-from-prefix:"+where+":intermediate", fmt.Sprintf("N=%d SetLen(%d) fork to %d: %v", n, l, mid, h), cs)
+				return
+			}
+			if h, err := acc.Finalize(); err != nil || !c28HdrEq(h, ref(mid), mid) {
+				c.r.Violation("finalize-differs-from-prefix:"+where+":intermediate", fmt.Sprintf("N=%d SetLen(%d) fork to %d: %v, %v", n, l, mid, h, err), cs)
+				return
+			}
+			if grow(n) {
+				at(n, (n+l)%2 == 0, fmt.Sprintf(" (headers also asked at %d)", mid))
+			}
+		}
+	}); p != "" {
+		c.r.Violation("fork-panic:"+rel, fmt.Sprintf("N=%d SetLen(%d) variant %d: %s", n, l, variant, p), cs)
+	}
+	c.add("forks", 1)
+}
+
 // build runs phase 1 for a sequence: a master accumulator adds the hashes one
 // by one (its tree bucket is the shared log), a second accumulator is
 // re-opened from its own buckets before every add; both must agree with the
@@ -550,6 +658,10 @@ func (c *c28Ctx) build(name string, distinct bool, maxN int) *c28Seq {
 		}
 		h := sha3.Sum256(in[:])
 		s.hash = append(s.hash, h[:])
+	}
+	for i := 0; i < maxN+3; i++ {
+		g := sha3.Sum256([]byte(fmt.Sprintf("fork-%d", i)))
+		s.fork = append(s.fork, g[:])
 	}
 	s.ref = make([][]byte, maxN+1)
 	ev.Par(maxN+1, 16, func(n int) { s.ref[n] = c28RefRoot(s.hash[:n]) })
@@ -629,8 +741,9 @@ func TestVerifC28(t *testing.T) {
 	maxN := r.Pick(300, 4200)
 	small := r.Pick(300, 1200) // every (N,l) pair and every key up to here
 	constN := 300
+	forkAll := r.Pick(96, 300) // every (N,l) fork pair up to here
 	c := &c28Ctx{r: r, readd: 17, maxSmall: r.Pick(64, 300)}
-	r.Rule(fmt.Sprintf("hash sequence h_i = SHA3(i) ('distinct') for N = 0..%d and the constant sequence ('constant', positive checks only) for N = 0..%d; phase 1: header after every add of a live accumulator and of one re-opened from its buckets before every add, against the reference root; in every situation ALL header-returning entry points are compared with the reference: Len, GetMerkleHeader and Finalize in both orders and repeated, proofs of the first and last key against the finalized header, and the view of an accumulator re-opened from the buckets; phase 1 also on a live accumulator finalized after every add; phase 2 on exact copies of the buckets after N adds: 'header' every N (re-opened, also after the no-op SetLen(N)); 'proof' every N<=%d with every key, larger N with key boundaries and every 16th key: Prove(key,0) accepted by a fresh tree made from the header, and for the distinct sequence rejected with another hash, as key+1/key-1, with one byte flipped in each level, with each level dropped; keys in order with Prove(key,-1) into one tree (N<=%d and the special N); 'rewind' SetLen(l): every pair l<=N<=%d, for larger N: every l for N in {16^k-1,16^k,16^k+1,%d} and l in {0,N-1,N-15,N-16,N-17,16^k-1,16^k,16^k+1} for every N; each rewind on two copies (Finalize asked first / GetMerkleHeader asked first; for odd N+l the N-state is finalized before the rewind): immediately after SetLen(l), before any Add, all entry points incl. the re-opened view (for l=0 the re-opened view is only an observation) = reference of the prefix; SetLen(l+1) fails; re-add (all up to N for N<=%d, else %d) with all entry points after every add; proofs of keys l-1,l; second rewind to l/2 with all entry points. evaluation = one case; non-trivial = distinct (sequence, kind, N, l)", maxN, constN, small, small, small, maxN, c.maxSmall, c.readd))
+	r.Rule(fmt.Sprintf("hash sequence h_i = SHA3(i) ('distinct') for N = 0..%d and the constant sequence ('constant', positive checks only) for N = 0..%d; phase 1: header after every add of a live accumulator and of one re-opened from its buckets before every add, against the reference root; in every situation ALL header-returning entry points are compared with the reference: Len, GetMerkleHeader and Finalize in both orders and repeated, proofs of the first and last key against the finalized header, and the view of an accumulator re-opened from the buckets; phase 1 also on a live accumulator finalized after every add; phase 2 on exact copies of the buckets after N adds: 'header' every N (re-opened, also after the no-op SetLen(N)); 'proof' every N<=%d with every key, larger N with key boundaries and every 16th key: Prove(key,0) accepted by a fresh tree made from the header, and for the distinct sequence rejected with another hash, as key+1/key-1, with one byte flipped in each level, with each level dropped; keys in order with Prove(key,-1) into one tree (N<=%d and the special N); 'rewind' SetLen(l): every pair l<=N<=%d, for larger N: every l for N in {16^k-1,16^k,16^k+1,%d} and l in {0,N-1,N-15,N-16,N-17,16^k-1,16^k,16^k+1} for every N; each rewind on two copies (Finalize asked first / GetMerkleHeader asked first; for odd N+l the N-state is finalized before the rewind): immediately after SetLen(l), before any Add, all entry points incl. the re-opened view (for l=0 the re-opened view is only an observation) = reference of the prefix; SetLen(l+1) fails; re-add (all up to N for N<=%d, else %d) with all entry points after every add; proofs of keys l-1,l; second rewind to l/2 with all entry points; 'fork' (distinct sequence): every l<N<=%d and the boundary l (0,1,N-1,N-2,N-15..N-17,16^k-1..16^k+1, multiples of 16) for larger N: all entry points asked at N, SetLen(l), DIFFERENT hashes added, 3 variants (no query before reaching N again then N+1; grown to N+2 and rewound to N; queries at an intermediate length), all entry points incl. proofs of the new leaves against the reference of the forked sequence. evaluation = one case; non-trivial = distinct (sequence, kind, N, l)", maxN, constN, small, small, small, maxN, c.maxSmall, c.readd, forkAll))
 	r.Assume("reference root: groups of 16 hashed level by level with SHA3-256 until one hash is left; a single hash is its own root", "storage: an in-memory db.Bucket of the harness that copies on Set and Get", "'rejected' means Add returns any error (ErrVerify and other errors are counted separately)")
 
 	seqs := []*c28Seq{}
@@ -652,6 +765,8 @@ func TestVerifC28(t *testing.T) {
 				c.proofCase(s, cs.N, true, true)
 			case "rewind":
 				c.rewindCase(s, cs.N, cs.L)
+			case "fork":
+				c.forkCase(s, cs.N, cs.L, cs.Key)
 			default:
 				c.headerCase(s, cs.N)
 			}
@@ -693,6 +808,27 @@ func TestVerifC28(t *testing.T) {
 				}
 				sort.Ints(ls)
 			}
+			// fork (rebase) cases, distinct sequence only: every l<N for N<=forkAll, else the boundary l
+			if s.distinct && (n <= small || special[n]) {
+				var fl []int
+				for _, l := range ls {
+					if l >= n {
+						continue
+					}
+					d := n - l
+					if n <= forkAll || l <= 1 || d <= 2 || (d >= 15 && d <= 17) || c28Pow16Rel(l)[:2] == "l=" || l%16 == 0 {
+						fl = append(fl, l)
+					}
+				}
+				for len(fl) > 0 {
+					k := len(fl)
+					if k > 32 {
+						k = 32
+					}
+					jobs = append(jobs, job{s: s, kind: "fork", n: n, ls: fl[:k]})
+					fl = fl[k:]
+				}
+			}
 			// split long l-lists so that the work is spread over the workers
 			for len(ls) > 0 {
 				k := len(ls)
@@ -720,6 +856,14 @@ func TestVerifC28(t *testing.T) {
 		case "proof":
 			c.proofCase(j.s, j.n, j.n <= small, j.n <= small || special[j.n])
 			r.Nontrivial(fmt.Sprintf("%s/p/%d", j.s.name, j.n))
+		case "fork":
+			for _, l := range j.ls {
+				for v := 0; v < 3; v++ {
+					c.forkCase(j.s, j.n, l, v)
+					r.Nontrivial(fmt.Sprintf("%s/f/%d/%d/%d", j.s.name, j.n, l, v))
+				}
+			}
+			r.Eval(3 * len(j.ls))
 		case "rewind":
 			for _, l := range j.ls {
 				c.rewindCase(j.s, j.n, l)
@@ -750,6 +894,7 @@ func TestVerifC28(t *testing.T) {
 		r.Sample(map[string]interface{}{"sequence": s.name, "kind": "proof", "N": 300, "key": 255, "alterations": "another hash, key+1, key-1, flipped byte per level, dropped level"})
 	}
 	r.Sanity(len(seqs) == 2, "a sequence could not be built")
+	r.Sanity(skipped > 0 || c.get("forks") > 0, "no fork case ran")
 	r.Sanity(c.get("full_proofs_accepted") > 0 && c.get("partial_proofs_accepted") > 0, "no proof accepted")
 	r.Sanity(c.get("rejected_with_ErrVerify") > 0, "no altered proof was rejected with ErrVerify")
 	r.Sanity(skipped > 0 || (c.get("rewinds_l=16^k") > 0 && c.get("rewinds_l=16^k-1") > 0 && c.get("rewinds_l=16^k+1") > 0 && c.get("rewinds_l=0") > 0), "rewind classes missing")
